@@ -115,11 +115,11 @@ pub fn check(c: &CfgCase) -> CaseReport {
             return Ok(());
         }
         rep.classes.push("started".into());
-        // the probe script needs a short MPP timeout to finish in real time
-        if c.mpp > 3 {
-            rep.classes.push("started_but_mpp_too_long_to_probe".into());
-            p.stop().await;
-            return Ok(());
+        // with a long MPP timeout the script runs without waiting for the partial set to time out: everything else
+        // (policy bytes, threshold, pay parameters, flag) is independent of it, and the partial HTLC must stay held
+        let long = c.mpp > 3;
+        if long {
+            rep.classes.push("started_with_long_mpp_timeout(partial set must stay held)".into());
         }
         let cfg = Cfg { base: c.base as u32, ppm: c.ppm as u32, policy_delta: c.policy_delta as u16, cltv_delta: c.cltv_delta as u16, mpp_timeout_s: c.mpp as u64, allow_self: !c.no_self };
         let amount = 1_000_000u64;
@@ -149,7 +149,7 @@ pub fn check(c: &CfgCase) -> CaseReport {
             p.send_htlc(json!(format!("p{i}")), &scn.render(i)).await;
         }
         let mut t_reply: Vec<Option<Duration>> = vec![None; 6];
-        let limit = Duration::from_secs(c.mpp as u64 + 12);
+        let limit = if long { Duration::from_secs(6) } else { Duration::from_secs(c.mpp as u64 + 12) };
         loop {
             for i in 0..6 {
                 if t_reply[i].is_none() && p.reply(&json!(format!("p{i}"))).is_some() {
@@ -228,10 +228,11 @@ pub fn check(c: &CfgCase) -> CaseReport {
                 if a["result"] != "fail" || a["failure_message"] != "2019" {
                     v(&mut rep, "partial_set_wrong_answer", format!("{c:?}: partial HTLC answered {a}"));
                 }
-                if t < Duration::from_secs(c.mpp as u64) {
+                if t < Duration::from_secs((c.mpp as u64).min(1 << 40)) {
                     v(&mut rep, "mpp_timeout_shorter_than_configured", format!("{c:?}: partial HTLC failed after {t:?}, configured {} s", c.mpp));
                 }
             }
+            _ if long => {}
             _ => {
                 // still unanswered after mpp + 12 s: is the plugin alive?
                 let ping = HtlcSpec { forward: true, ..htlc(0, 1, 1, height + 100, 100) };
@@ -275,7 +276,7 @@ fn fixed_cases() -> Vec<CfgCase> {
         v.push(CfgCase { base: x, ..d.clone() });
         v.push(CfgCase { ppm: x, ..d.clone() });
     }
-    for x in [-1i64, 0, 2] {
+    for x in [-1i64, 0, 2, 4294967296, i64::MAX] {
         v.push(CfgCase { mpp: x, ..d.clone() });
     }
     for x in [-1i64, 0, 65535, 65536, i64::MAX] {
